@@ -4,7 +4,7 @@ import Mqtt.Spec.Fifo
 import Mqtt.Driver.Util
 
 namespace Mqtt.Driver.AckQ
-open Mqtt.Driver Mqtt.Model.AckQueue Mqtt.Generated
+open Mqtt.Driver Mqtt.Model.AckQueue Mqtt.Generated Mqtt.Iface.AckQ
 
 def parseEnc (s : String) : Option (Option (List UInt8)) :=
   if s == "!" then some none else (unhex s).map some
@@ -32,37 +32,10 @@ def showOut : Out → String
   | .released l =>
     "rel [" ++ ";".intercalate (l.map (fun a => showEntry a.mtype a.state a.pktid a.msgbuf a.ackbuf a.tag)) ++ "]"
 
-/-! The specification stream: `Spec.Fifo` driven by the same operations.  This
-mirrors `Properties/C13.specStep` (kept here, Mathlib-free and executable, so the
-driver can be linked); `Properties/C13` proves the two streams equal. -/
-open Mqtt.Spec in
-def specStep (s : Fifo.S) (op : Op) : Fifo.S × String :=
-  let term := fun t => ackedReleaseStates.contains t
-  let reg (s : Fifo.S) (mt id : Nat) (enc : Option (List UInt8)) (tag : Nat) : Fifo.S :=
-    match enc with
-    | some b => Fifo.register s ⟨mt, 0, id, b, [], tag⟩
-    | none => s
-  match op with
-  | .wait (.publish qos id enc) tag =>
-      if qos == 0 then (s, "ok false") else (reg s tPUBLISH id enc tag, "ok true")
-  | .wait (.subscribe id enc) tag => (reg s tSUBSCRIBE id enc tag, "ok true")
-  | .wait (.unsubscribe id enc) tag => (reg s tUNSUBSCRIBE id enc tag, "ok true")
-  | .wait (.pingreq enc) tag => ({ s with ping := some ⟨tPINGREQ, 0, 0, enc, [], tag⟩ }, "ok true")
-  | .wait .other _ => (s, "ok false")
-  | .ack t id bytes =>
-      if ackIdTypes.contains t then (Fifo.ackId s t id bytes, "ok true")
-      else if t == ackPingType then
-        ({ s with ping := s.ping.map (fun e => { e with state := tPINGRESP, ack := bytes }) }, "ok true")
-      else (s, "ok false")
-  | .acked =>
-      let pingDone := match s.ping with
-        | some e => e.state == tPINGRESP
-        | none => false
-      let s1 : Fifo.S := if pingDone then { s with ping := none } else s
-      let pl := if pingDone then s.ping.toList else []
-      let (s2, l) := Fifo.collect term s1
-      (s2, "rel [" ++ ";".intercalate ((pl ++ l).map
-        (fun e => showEntry e.mtype e.state e.id e.req e.ack e.tag)) ++ "]")
+def showSOut : Mqtt.Spec.Fifo.SOut → String
+  | .ok b => s!"ok {boolStr b}"
+  | .released l =>
+    "rel [" ++ ";".intercalate (l.map (fun e => showEntry e.mtype e.state e.id e.req e.ack e.tag)) ++ "]"
 
 structure St where
   q : Q
@@ -79,7 +52,7 @@ def handle (st : St) (ws : List String) : St × String × String :=
     | none => (st, "bad-op", "bad-op")
     | some op =>
       let (q, o) := step st.q op
-      let (s, so) := specStep st.s op
-      (⟨q, s⟩, showOut o ++ s!" n={q.count} cap={q.size}", so)
+      let (s, so) := Mqtt.Spec.Fifo.step st.s op
+      (⟨q, s⟩, showOut o ++ s!" n={q.count} cap={q.size}", showSOut so)
 
 end Mqtt.Driver.AckQ
